@@ -110,6 +110,21 @@ Fixpoint dec_val (fuel : nat) (l : list N) : option (pyval * list N) :=
         | Some (xs, r') => Some (PDict xs, r')
         | None => None
         end
+    | 10 :: n :: r =>
+        match (fix items (cnt : nat) (l : list N) : option (list pyval * list N) :=
+                 match cnt with
+                 | O => Some ([], l)
+                 | S c => match dec_val f l with
+                          | Some (x, l') => match items c l' with
+                                            | Some (xs, l'') => Some (x :: xs, l'')
+                                            | None => None
+                                            end
+                          | None => None
+                          end
+                 end) (N.to_nat n) r with
+        | Some (xs, r') => Some (PTuple xs, r')
+        | None => None
+        end
     | 9 :: id :: b :: r =>
         match dec_text r with Some (s, r') => Some (PObj id (negb (b =? 0)) s, r') | None => None end
     | _ => None
@@ -157,6 +172,10 @@ Fixpoint enc_val (v : pyval) : list N :=
   | PBytes s => 6 :: enc_text s
   | PList l =>
       7 :: N.of_nat (length l) ::
+      (fix go (l : list pyval) : list N :=
+         match l with [] => [] | x :: r => enc_val x ++ go r end) l
+  | PTuple l =>
+      10 :: N.of_nat (length l) ::
       (fix go (l : list pyval) : list N :=
          match l with [] => [] | x :: r => enc_val x ++ go r end) l
   | PDict d =>
